@@ -58,17 +58,90 @@ def eval_guard(test, env):
     raise AnalysisError(f"unrecognised guard `{norm(test)}`")
 
 
-def branch_style(body):
+def branch_style(body, rad="rad", npt="npt"):
+    """Which kind of table a branch of from_preset expects, from how it uses the two rows:
+    sector  -- the `_rad` row is handed to _find_degrees_for_radial_points as sector radii
+    count   -- a comprehension repeats npt[i] for range(<entry i of the `_rad` row>)
+    count-repeat -- np.repeat(npt, rad)"""
     txt = " ".join(norm(s) for s in body)
-    if "np.repeat(npt, rad)" in txt and "_find_degrees_for_radial_points(" not in txt:
+    nodes = [n for s in body for n in ast.walk(s)]
+    repeat = any(isinstance(n, ast.Call) and norm(n.func) == "np.repeat" and [norm(a) for a in n.args] == [npt, rad]
+                 for n in nodes)
+    sector = any(isinstance(n, ast.Call) and norm(n.func).endswith("_find_degrees_for_radial_points")
+                 and rad in [norm(a) for a in n.args] for n in nodes)
+    count = False
+    for n in nodes:
+        if isinstance(n, (ast.ListComp, ast.GeneratorExp)) and any(
+                isinstance(x, ast.Subscript) and norm(x.value) == npt for x in ast.walk(n.elt)):
+            counts = {f"{rad}[{norm(g.target)}]" for g in n.generators if isinstance(g.target, ast.Name)}
+            for g in n.generators:   # `for idx, count in enumerate(rad)` binds the count directly
+                if isinstance(g.iter, ast.Call) and norm(g.iter.func) == "enumerate" and g.iter.args and \
+                        norm(g.iter.args[0]) == rad and isinstance(g.target, ast.Tuple) and len(g.target.elts) == 2:
+                    counts.add(norm(g.target.elts[1]))
+                    counts.add(f"{rad}[{norm(g.target.elts[0])}]")
+            if any(isinstance(g.iter, ast.Call) and norm(g.iter.func) == "range" and len(g.iter.args) == 1
+                   and norm(g.iter.args[0]) in counts for g in n.generators):
+                count = True
+    if repeat and not sector:
         return "count-repeat"
-    count = "range(rad[" in txt
-    sector = "_find_degrees_for_radial_points(" in txt and ", rad," in txt.replace("rad_degs", "")
     if count and not sector:
         return "count"
-    if sector and not count:
+    if sector and not count and not repeat:
         return "sector"
     raise AnalysisError(f"unrecognised preset branch: `{txt[:120]}`")
+
+
+def _preset_rows(repo, f):
+    """Where from_preset gets its two table rows: (rad variable, npt variable, member template of the
+    `_rad` row, of the `_npt` row, file-name template, data package).  The archive may be read in
+    from_preset itself or in a module-level helper that returns the two rows."""
+    mi = repo.modules[f.module]
+    scope = [f.node]
+    for c in ast.walk(f.node):
+        if isinstance(c, ast.Call) and isinstance(c.func, ast.Name):
+            g = next((x for x in repo.funcs.values() if x.module == f.module and x.cls is None and x.name == c.func.id
+                      and isinstance(x.node, ast.FunctionDef)), None)
+            if g is not None and g.node not in scope:
+                scope.append(g.node)
+    tmpl = pkg = None
+    members = {}     # role -> (template, subscript node, function node)
+    for fn in scope:
+        for n in ast.walk(fn):
+            if isinstance(n, ast.JoinedStr):
+                t = e4.fstring_template(n)
+                if t and any(p_[0] == "lit" and p_[1].endswith(".npz") for p_ in t):
+                    tmpl = t
+            if isinstance(n, ast.Call) and norm(n.func) == "files" and n.args and isinstance(n.args[0], ast.Constant):
+                pkg = n.args[0].value
+            if isinstance(n, ast.Subscript) and isinstance(n.slice, ast.JoinedStr):
+                t = e4.fstring_template(n.slice)
+                tail = "".join(p_[1] for p_ in t if p_[0] == "lit")
+                if tail.endswith("_rad"):
+                    members["rad"] = (t, n, fn)
+                elif tail.endswith("_npt"):
+                    members["npt"] = (t, n, fn)
+    if not (tmpl and pkg and "rad" in members and "npt" in members):
+        raise AnalysisError("unrecognised idiom: from_preset does not read data[f'{atnum}_rad'] / data[f'{atnum}_npt'] "
+                            "of files('<package>') / f'..._{preset}.npz'")
+    var = {}
+    for role, (t, node, fn) in members.items():
+        if fn is f.node:
+            for st in ast.walk(f.node):
+                if isinstance(st, ast.Assign) and st.value is node and isinstance(st.targets[0], ast.Name):
+                    var[role] = st.targets[0].id
+        else:
+            # returned by the helper at some position of a tuple
+            for r in ast.walk(fn):
+                if isinstance(r, ast.Return) and isinstance(r.value, ast.Tuple) and node in r.value.elts:
+                    pos = r.value.elts.index(node)
+                    for st in ast.walk(f.node):
+                        if isinstance(st, ast.Assign) and isinstance(st.value, ast.Call) and \
+                                isinstance(st.value.func, ast.Name) and st.value.func.id == fn.name and \
+                                isinstance(st.targets[0], ast.Tuple) and len(st.targets[0].elts) == len(r.value.elts):
+                            var[role] = norm(st.targets[0].elts[pos])
+    if set(var) != {"rad", "npt"}:
+        raise AnalysisError("unrecognised idiom: the `_rad` / `_npt` rows of the preset archive are not bound to local names")
+    return var["rad"], var["npt"], members["rad"][0], members["npt"][0], tmpl, pkg
 
 
 def rule_r1(rep, repo):
@@ -115,34 +188,24 @@ def rule_r1(rep, repo):
                 tail = body_[body_.index(chain) + 1:]
             branches.append((None, tail))
             break
-    styles = [branch_style(b) for _, b in branches]
+    rad_v, npt_v, rad_t, npt_t, tmpl, pkg = _preset_rows(repo, f)
+    styles = [branch_style(b, rad_v, npt_v) for _, b in branches]
     # literal lists bound to local names before the dispatch (used inside the guards)
     local_consts = {}
+    mi_ = repo.modules[f.module]
+    for gname, gnode in mi_.globals.items():   # module-level literal tuples/lists named in the guards
+        try:
+            v_ = e4.fold(gnode, {}, mi_.globals)
+        except (e4.NotConstant, AnalysisError):
+            continue
+        if isinstance(v_, (list, tuple, set, frozenset)):
+            local_consts[gname] = v_
     for st in strip_docstring(f.node.body):
         if isinstance(st, ast.Assign) and len(st.targets) == 1 and isinstance(st.targets[0], ast.Name):
             try:
                 local_consts[st.targets[0].id] = e4.fold(st.value)
             except (e4.NotConstant, AnalysisError):
                 pass
-    # file template and member templates
-    tmpl = rad_t = npt_t = None
-    pkg = None
-    for n in ast.walk(f.node):
-        if isinstance(n, ast.Call) and isinstance(n.func, ast.Attribute) and n.func.attr == "joinpath" and n.args \
-                and isinstance(n.args[0], ast.JoinedStr):
-            tmpl = e4.fstring_template(n.args[0])
-            inner = n.func.value
-            if isinstance(inner, ast.Call) and inner.args and isinstance(inner.args[0], ast.Constant):
-                pkg = inner.args[0].value
-        if isinstance(n, ast.Assign) and isinstance(n.value, ast.Subscript) and norm(n.value.value) == "data" \
-                and isinstance(n.value.slice, ast.JoinedStr):
-            t = e4.fstring_template(n.value.slice)
-            if norm(n.targets[0]) == "rad":
-                rad_t = t
-            elif norm(n.targets[0]) == "npt":
-                npt_t = t
-    if not (tmpl and rad_t and npt_t and pkg):
-        raise AnalysisError("unrecognised idiom: from_preset does not read data[f'{atnum}_rad'] / data[f'{atnum}_npt']")
     ddir = e4.package_dir(repo, pkg)
     m = AngularModel(repo)
     dn, nn = m.tables_for("lebedev")
